@@ -120,6 +120,11 @@ def main():
             r["status"] = "timeout"
         r["failed_checks"] = sorted(set(r["failed_checks"]))
         results.setdefault(name, {})[mode] = r
+        c = r["covers"] or ""
+        mm = re.match(r"(\d+)/(\d+)", c)
+        if r["status"] == "pass" and mm and mm.group(1) != mm.group(2):
+            c += " UNSAT-COVER"
+        r["covers"] = c
         print("%-8s %7s  %-28s %s %s" % (r["status"], r["time_s"], r["covers"], name,
                                           "; ".join(r["failed_checks"])[:160]))
     json.dump(results, open(RESULTS, "w"), indent=1, sort_keys=True)
